@@ -584,7 +584,8 @@ def replay(w):
 TECHNIQUE = "Lean 4 proof: invariants of the handler machine model that rule out its failure points (entries[-1], empty element stack) for EVERY event sequence + result-shape and bozo-pairing theorems on a model of parse()'s result assembly + correspondence of both models + grammar / mutation / JSON / binary fuzzing with crash-site identity"
 LEVEL_TEXT = ("Kernel-checked: on M-mixin (stages 1-4: structural handlers, the no-handler fallback, date elements, text constructs, summary / description / content, link and guid / id) inentry_has_entry (every reachable state with inentry set has a last entry: the entries[-1] of _get_context cannot raise), "
               "step_total (a step never gets stuck on structural / handler-less vocabulary: every event, however unbalanced the arrangement, yields a state), content_has_params (an open text "
-              "construct always has content parameters: the contentparams.get('type') of _end_content is never None); the link / guid handlers are TOTAL in the model (startLG_isOk, endLG_isOk) -- "
+              "construct always has content parameters: the contentparams.get('type') of _end_content is never None); lg_start_total / lg_end_total (every start and end tag of the hand-modelled handlers of stages 4, 5, 7 -- link, guid / id, category, enclosure, author with its children, contributor, publisher, owner, cloud, generator -- "
+              "yields a state in ANY state outside a text construct: the handlers are total in the model, table_kinds_ok) -- "
               "modelling pop('link') is what exposed the links[-1] crash repaired in 1ddbe04; on M-api shape_always / "
               "shape_nonempty / bozo_iff_exception (for every combination of stage outcomes the assembled result has the promised keys and bozo is set exactly when an exception is attached).")
 LEVEL_NOTE = ("Trusted: Lean kernel + standard axioms; library exception contracts; the dedicated extension handlers are outside the theorems -- the fuzzer covers them and every crash "
